@@ -159,9 +159,17 @@ class Driver:
             if name == "SaveLoad":
                 m = em.GMMMachine.from_hdf5(path, ubm=self.prior)
             else:
-                other = em.GMMMachine(self.C + 1)
-                other.means = np.zeros((self.C + 1, self.D))
-                other.variances = np.ones((self.C + 1, self.D))
+                if self.prior is not None:
+                    # a MAP file can only be loaded into an object that has the prior to hand to the reader
+                    other = em.GMMMachine(self.C, trainer="map", ubm=self.prior)
+                    other.means = np.zeros((self.C, self.D))
+                    other.variances = np.ones((self.C, self.D)) * 3.0
+                else:
+                    other = em.GMMMachine(self.C + 1)
+                    other.means = np.zeros((self.C + 1, self.D))
+                    other.variances = np.ones((self.C + 1, self.D)) * 3.0
+                other.log_likelihood(PROBES[self.D])      # the existing object has a history: caches are populated
+                other.acc_stats(PROBES[self.D][:2])
                 other.load(path)
                 m = other
             os.remove(path)
